@@ -16,7 +16,7 @@ from .exec import Exec
 from .values import EngineError
 from .report import Obligation as RepOb, BASELINE
 
-CONTRACT_MODULES = ['contracts.filter_kernels', 'contracts.transform_kernel', 'contracts.err',
+CONTRACT_MODULES = ['contracts.idorder', 'contracts.filter_kernels', 'contracts.transform_kernel', 'contracts.err',
                     'contracts.validator', 'contracts.subsample_kernels',
                     'contracts.table_methods']
 
